@@ -138,6 +138,8 @@ pub struct Identity {
     seen_log: usize,
     nontrivial: bool,
     classes: Vec<String>,
+    /// "fresh WHOAREYOU": the acceptance clause of C03's ledger, evaluated on these schedules too
+    fresh: crate::props::c03::Freshness,
 }
 
 impl Identity {
@@ -160,6 +162,29 @@ fn is_foreign(w: &World, id: &ids::Id) -> bool {
 
 impl Oracle for Identity {
     fn after_step(&mut self, w: &World, op: &Op) -> Option<(String, String)> {
+        self.fresh.acceptance_only = true;
+        // (the ledger of challenges must see every step; its verdict is reported after the identity clauses)
+        let not_fresh = self.fresh.after_step(w, op);
+        if matches!(op, Op::ReplayHandshake { .. }) {
+            self.class("handshake-packet-presented-again".into());
+        }
+        if let Some(r) = self.identity_clauses(w, op) {
+            return Some(r);
+        }
+        not_fresh.map(|(sig, d)| (format!("identity/not-a-fresh-challenge/{}", sig.rsplit('/').next().unwrap_or("")), d))
+    }
+
+    fn report(&self, w: &World, rep: &mut CaseReport) {
+        rep.nontrivial = self.nontrivial;
+        for c in &self.classes {
+            rep.class(c.clone());
+        }
+        rep.count("forged-handshakes-with-verifying-signature", w.attacker.forged_with_verifying_sig as u64);
+    }
+}
+
+impl Identity {
+    fn identity_clauses(&mut self, w: &World, op: &Op) -> Option<(String, String)> {
         // what was injected into V in this step?
         let inj: Vec<&Injection> = w.step_injections().filter(|j| j.to_node == 0).collect();
         let from_attacker_only = !inj.is_empty() && inj.iter().all(|j| adv_addr(w, &j.from_addr));
@@ -236,6 +261,7 @@ impl Oracle for Identity {
                 Signer::Garbage => "garbage",
                 Signer::Empty => "empty",
                 Signer::Truncated => "truncated",
+                Signer::AdvExtended(..) => "adv-key-with-appended-bytes",
             };
             self.class(format!("forged/{know}/{r}/{sg}{}", if outstanding { "" } else { "/no-challenge-outstanding" }));
         }
@@ -362,13 +388,6 @@ impl Oracle for Identity {
         None
     }
 
-    fn report(&self, w: &World, rep: &mut CaseReport) {
-        rep.nontrivial = self.nontrivial;
-        for c in &self.classes {
-            rep.class(c.clone());
-        }
-        rep.count("forged-handshakes-with-verifying-signature", w.attacker.forged_with_verifying_sig as u64);
-    }
 }
 
 impl Property for C01 {
@@ -392,6 +411,10 @@ impl Property for C01 {
                 // in a third of the cases peer 1's application answers record requests with a foreign record
                 if cfg.seqs.first().map(|s| s % 3 == 0).unwrap_or(false) {
                     cfg.foreign_enr_answer = vec![1];
+                }
+                // in a quarter of the cases peer 1 is behind NAT (its record advertises another socket than it sends from)
+                if cfg.seqs.get(2).map(|s| *s == 3).unwrap_or(false) && cfg.seqs.get(3).map(|s| *s != 1).unwrap_or(false) {
+                    cfg.nat_peers = vec![1];
                 }
                 Case { cfg, ops, svc: None }
             });
@@ -418,7 +441,7 @@ impl Property for C01 {
         rep
     }
     fn rule() -> String {
-        "attack scripts (<=25 quick / <=60 thorough ops) against V with 1..3 honest peers exchanging genuine traffic: for a claimed id X in {an honest peer known to V with its current record, with an older record, unknown to V, a random id} the attacker (own keys, 3 source addresses, never a peer's secret key) sends undecryptable probes to provoke V's WHOAREYOU, then handshakes built with the real primitives: signed by an attacker key / garbage / empty / truncated, ephemeral key valid / invalid point / wrong length, attached record = the attacker's own record (seq 0, below, equal, above the known one, 2^64-1; address matching / other / absent), the peer's genuine record, a third party's record, none; bodies PING / FINDNODE / TALK encrypted under the keys the attacker can derive, follow-up messages under those keys, replays, forged WHOAREYOUs, and requests V sends to the peer's key at an attacker address. Invariant after every step: no request/response/Established/UnverifiableEnr attributed to a foreign id at an attacker address, no session keyed to it created by an inbound handshake, nothing V emits to it decrypts under an attacker-derivable key, and honest sessions/requests are untouched by steps that only process attacker traffic. One case in 61 is a companion on the service engine: a real service with 1..8 table members (incoming and outgoing) receives the handler's who-are-you query - the one handler event triggered by a datagram nobody authenticated - for a member's id or an unknown id from the record's socket, another port, another IP or an IPv6 address; the routing table (ids, record versions, connection status) must be unchanged afterwards and no event may be emitted; and reports that a member A presented the record of another member Y which it could not vouch for must leave Y's entry untouched. Non-trivial = a forged handshake whose id-signature verifies under the attached record's key arrives while V's WHOAREYOU to (X, attacker address) is outstanding.".into()
+        "attack scripts (<=25 quick / <=60 thorough ops) against V with 1..3 honest peers exchanging genuine traffic: for a claimed id X in {an honest peer known to V with its current record, with an older record, unknown to V, a random id} the attacker (own keys, 3 source addresses, never a peer's secret key) sends undecryptable probes to provoke V's WHOAREYOU, then handshakes built with the real primitives: signed by an attacker key / garbage / empty / truncated, ephemeral key valid / invalid point / wrong length, attached record = the attacker's own record (seq 0, below, equal, above the known one, 2^64-1; address matching / other / absent), the peer's genuine record, a third party's record, none; bodies PING / FINDNODE / TALK encrypted under the keys the attacker can derive, follow-up messages under those keys, replays (also of handshake packets V accepted: at once, while the session is used, after the challenge lifetime; the peer's record matching its address or - a quarter of the cases - not), forged WHOAREYOUs, and requests V sends to the peer's key at an attacker address. Invariant after every step: no request/response/Established/UnverifiableEnr attributed to a foreign id at an attacker address, no session keyed to it created by an inbound handshake, nothing V emits to it decrypts under an attacker-derivable key, and honest sessions/requests are untouched by steps that only process attacker traffic; and (the 'fresh WHOAREYOU' clause, C03's ledger of emitted challenges) a session appears / is re-keyed or Established is reported on a handshake packet only while an unconsumed, unexpired WHOAREYOU of that node to exactly (id, source address) exists. One case in 61 is a companion on the service engine: a real service with 1..8 table members (incoming and outgoing) receives the handler's who-are-you query - the one handler event triggered by a datagram nobody authenticated - for a member's id or an unknown id from the record's socket, another port, another IP or an IPv6 address; the routing table (ids, record versions, connection status) must be unchanged afterwards and no event may be emitted; and reports that a member A presented the record of another member Y which it could not vouch for must leave Y's entry untouched. Non-trivial = a forged handshake whose id-signature verifies under the attached record's key arrives while V's WHOAREYOU to (X, attacker address) is outstanding.".into()
     }
     fn assumptions() -> Vec<String> {
         vec![
